@@ -325,33 +325,41 @@ def run(spec, seed=0, policy='random', stress=False):
 
 
 # ------------------------------------------------------------------ unsharded reference
-def unsharded_rank_fn(spec, stage):
+class _Stages(torch.nn.Module):
+    """All pipeline stages of the unsharded model (stages are independent chains; K-FAC couples them through the clip scale)."""
+
+    def __init__(self, chains):
+        super().__init__()
+        self.stages = torch.nn.ModuleList([torch.nn.Sequential(*c) for c in chains])
+
+
+def unsharded_rank_fn(spec):
     def fn(rank, world):
         from kfac.preconditioner import KFACPreconditioner
 
-        mods = build_full(spec, stage)
-        kinds = ['full'] * len(mods)
-        model = torch.nn.Sequential(*mods)
-        width_last = mods[-1].weight.shape[0]
+        chains = [build_full(spec, st) for st in range(spec['pp'])]
+        model = _Stages(chains)
         with warnings.catch_warnings():
             warnings.simplefilter('ignore')
             p = KFACPreconditioner(model, damping=spec['damping'], kl_clip=spec['kl'], lr=spec.get('lr', 0.1), allreduce_bucket_cap_mb=0.0,
                                    factor_update_steps=spec['F'], inv_update_steps=spec['I'], update_factors_in_hook=spec['hook'],
                                    accumulation_steps=spec['acc'], compute_method='eigen', compute_eigenvalue_outer_product=False)
-        gen = torch.Generator().manual_seed(spec['data_seed'] * 100 + stage * 10 + rank)
+        gens = [torch.Generator().manual_seed(spec['data_seed'] * 100 + st * 10 + rank) for st in range(spec['pp'])]
         rec = dict(grads=[], factors=[])
-        din = stage_input_dim(spec, stage)
         for ev in spec['history']:
             if ev[0] != 'train':
                 continue
             model.zero_grad()
             for _ in range(spec['acc']):
-                x = torch.randn(spec['batch'], din, generator=gen, dtype=torch.float64)
-                out = forward_chain(mods, kinds, x)
-                loss_of(out, width_last, spec['batch']).backward()
+                loss = 0.0
+                for st, mods in enumerate(chains):
+                    x = torch.randn(spec['batch'], stage_input_dim(spec, st), generator=gens[st], dtype=torch.float64)
+                    out = forward_chain(mods, ['full'] * len(mods), x)
+                    loss = loss + loss_of(out, mods[-1].weight.shape[0], spec['batch'])
+                loss.backward()
             simdist.allreduce_mean_grads(model.parameters(), size=world)
             p.step()
-            rec['grads'].append([(m.weight.grad.clone(), None if m.bias is None else m.bias.grad.clone()) for m in mods])
+            rec['grads'].append([[(m.weight.grad.clone(), None if m.bias is None else m.bias.grad.clone()) for m in mods] for mods in chains])
             sd = p.state_dict()['layers']
             rec['factors'].append({n: (sd[n]['A'].clone(), sd[n]['G'].clone()) for n in sd})
             if spec.get('sgd_lr'):
@@ -362,8 +370,9 @@ def unsharded_rank_fn(spec, stage):
     return fn
 
 
-def run_unsharded(spec, stage, seed=0):
-    return simdist.run_world(spec['dp'], unsharded_rank_fn(spec, stage), seed=seed, policy='round_robin')
+def run_unsharded(spec, seed=0):
+    """results[dp_rank]['grads'][step][stage][layer] = (w, b); factors keyed 'stages.<stage>.<layer>'."""
+    return simdist.run_world(spec['dp'], unsharded_rank_fn(spec), seed=seed, policy='round_robin')
 
 
 def shard_of(kind, full_w, full_b, m, mp):
